@@ -166,9 +166,13 @@ def make_inputs(pp, torch, ty, kinds, vals, dtype):
     return env
 
 
-def jac_by(api, pp, torch, ty, prog, kinds, vals, dtype):
-    """Jacobians (list per input of m x width lists) of the program by one of the autograd entry points."""
+def jac_by(api, pp, torch, ty, prog, kinds, vals, dtype, frozen=()):
+    """Jacobians (list per input of m x width lists) of the program by one of the autograd entry points.
+    frozen: indices of inputs that are constants (requires_grad False); their entry of the result is None."""
     env = make_inputs(pp, torch, ty, kinds, vals, dtype)
+    for k in frozen:
+        env[k].requires_grad_(False)
+    live = [k for k in range(len(env)) if k not in frozen]
     used = sorted(set(_inputs(prog)))
     if api == "grad":
         y = interp(pp, prog, env)
@@ -176,10 +180,10 @@ def jac_by(api, pp, torch, ty, prog, kinds, vals, dtype):
         yf = y.reshape(-1)
         J = [[None] * m for _ in env]
         for r in range(m):
-            gs = torch.autograd.grad(yf[r], env, retain_graph=True, allow_unused=True)
-            for k, g in enumerate(gs):
+            gs = torch.autograd.grad(yf[r], [env[k] for k in live], retain_graph=True, allow_unused=True)
+            for k, g in zip(live, gs):
                 J[k][r] = (torch.zeros_like(env[k]) if g is None else g).reshape(-1)
-        return y, [torch.stack(j) for j in J]
+        return y, [torch.stack(J[k]) if k in live else None for k in range(len(env))]
     if api == "backward":
         y = interp(pp, prog, env)
         yf = y.reshape(-1)
@@ -189,9 +193,20 @@ def jac_by(api, pp, torch, ty, prog, kinds, vals, dtype):
             for x in env:
                 x.grad = None
             yf[r].backward(retain_graph=True)
-            for k, x in enumerate(env):
+            for k in live:
+                x = env[k]
                 J[k][r] = (torch.zeros_like(x) if x.grad is None else x.grad.clone()).reshape(-1)
-        return y, [torch.stack(j) for j in J]
+        return y, [torch.stack(J[k]) if k in live else None for k in range(len(env))]
+    if frozen and api == "jacrev":
+        f2 = lambda *xs: interp(pp, prog, [xs[live.index(k)] if k in live else env[k] for k in range(len(env))]).reshape(-1)
+        y = f2(*[env[k] for k in live])
+        Js = pp.func.jacrev(f2, argnums=tuple(range(len(live))))(*[env[k] for k in live])
+        out = [None] * len(env)
+        for k, j in zip(live, Js):
+            out[k] = j.reshape(y.numel(), -1)
+        return y, out
+    if frozen:
+        raise ValueError("frozen inputs are only used with grad / backward / jacrev")
     f = lambda *xs: interp(pp, prog, list(xs)).reshape(-1)
     if api == "functional":
         y = f(*env)
@@ -257,7 +272,8 @@ def exact_events(ctx, ty, dtype, nprog, maxd):
     rng = ctx.rng
     ev = []
     tries = 0
-    while len(ev) < nprog and tries < nprog * 20:
+    nbase = 0
+    while nbase < nprog and tries < nprog * 20:
         tries += 1
         g = Gen(rng, ty)
         g.sorts = []
@@ -265,18 +281,34 @@ def exact_events(ctx, ty, dtype, nprog, maxd):
         used = set(_inputs(prog))
         if len(used) != len(g.vals):
             continue
-        api = APIS[len(ev) % len(APIS)] if len(ev) >= len(APIS) else APIS[len(ev)]
+        api = APIS[nbase % len(APIS)]
+        nbase += 1
         try:
             y, Js = jac_by(api, pp, torch, ty, prog, g.kinds, g.vals, dtype)
         except Exception as ex:  # a well-typed program must be differentiable by every entry point
             ev.append({"ty": ty, "prog": prog, "kinds": g.kinds, "vals": [[L.dy(v) for v in x] for x in g.vals],
                        "value": [], "jac": [], "finite": False, "api": api, "raised": repr(ex)[:300], "depth": depth(prog),
-                       "zero_only": False})
+                       "zero_only": False, "skip": []})
             continue
         fin = bool(torch.isfinite(y).all() and all(torch.isfinite(j).all() for j in Js))
         ev.append({"ty": ty, "prog": prog, "kinds": g.kinds, "vals": [[L.dy(v) for v in x] for x in g.vals],
                    "value": L.dyvec(y), "jac": [[L.dyvec(row) for row in j] for j in Js], "finite": fin,
-                   "api": api, "depth": depth(prog), "zero_only": False})
+                   "api": api, "depth": depth(prog), "zero_only": False, "skip": []})
+        # the same program with some inputs held constant (requires_grad False): the Jacobians of the others are unchanged
+        if len(g.vals) >= 2 and nbase % 2 == 0:
+            fz = tuple(sorted(rng.sample(range(len(g.vals)), rng.randint(1, len(g.vals) - 1))))
+            api2 = ["grad", "backward", "jacrev"][(nbase // 2) % 3]
+            try:
+                y2, Js2 = jac_by(api2, pp, torch, ty, prog, g.kinds, g.vals, dtype, frozen=fz)
+                fin2 = bool(torch.isfinite(y2).all() and all(torch.isfinite(j).all() for j in Js2 if j is not None))
+                ev.append({"ty": ty, "prog": prog, "kinds": g.kinds, "vals": [[L.dy(v) for v in x] for x in g.vals],
+                           "value": L.dyvec(y2), "jac": [[L.dyvec(row) for row in j] if j is not None else [] for j in Js2],
+                           "finite": fin2, "api": api2 + "/const", "depth": depth(prog), "zero_only": False,
+                           "skip": [k + 1 for k in fz]})
+            except Exception as ex:
+                ev.append({"ty": ty, "prog": prog, "kinds": g.kinds, "vals": [[L.dy(v) for v in x] for x in g.vals],
+                           "value": [], "jac": [], "finite": False, "api": api2 + "/const", "raised": repr(ex)[:300],
+                           "depth": depth(prog), "zero_only": False, "skip": [k + 1 for k in fz]})
     # group-valued outputs (raw coordinates, every unit cotangent incl. the last coordinate): only the zero slot.
     # First every group-valued operator at the ROOT with input leaves as operands (the upstream cotangent then reaches the
     # operator's own backward with a non-zero entry in the extra slot), then random programs.
@@ -317,7 +349,7 @@ def exact_events(ctx, ty, dtype, nprog, maxd):
         except Exception as ex:
             fin, jac, y = False, [[] for _ in g.vals], None
         ev.append({"ty": ty, "prog": prog, "kinds": g.kinds, "vals": [[L.dy(v) for v in x] for x in g.vals],
-                   "value": [], "jac": jac, "finite": fin, "api": api, "depth": depth(prog), "zero_only": True})
+                   "value": [], "jac": jac, "finite": fin, "api": api, "depth": depth(prog), "zero_only": True, "skip": []})
     return ev
 
 
